@@ -13,6 +13,13 @@
 //! against thresholds {1, 1.5, -0.5, -1} and the mixed alphabet {0, 1, 0.5, 2, -1} against thresholds
 //! {0, 0.5, 1, -0.5}: entries that already look binary must still be compared with the threshold.
 
+//!
+//! Extension (round 7): (1) label maps of LARGE ADJACENT integers ({300000001, 300000002, ..}, {2^24,
+//! 2^24+1, ..}, {-300000002, -300000001, 7, ..}: distinct as f64 / i64, equal as f32) on the Gaussian,
+//! multinomial and Bernoulli lattices and families (jobs tagged `L`); (2) job kind `gtiny`: Gaussian
+//! features with a large offset and a tiny spread (5000.1 .. 5000.9, classes of different sizes) under
+//! the FULL oracle with the variance tolerance relative to the spread-based reference variance.
+
 mod reference;
 
 use mc_core::{self as mc, json, Harness, Job, Plan, Tier, Value};
@@ -109,6 +116,11 @@ const TWO52: f64 = 4503599627370496.0;
 fn label_map(k: usize, idx: usize) -> Vec<f64> {
     let t: Vec<f64> = match (k, idx) {
         (_, 0) => (0..k).map(|c| c as f64).collect(),
+        // round-7 extension: labels that are large AND close (distinct as f64 / i64, indistinguishable
+        // as f32: the f32 spacing is 32 at 3e8 and 2 at 2^24); prefix of length k
+        (_, 4) => vec![300000001.0, 300000002.0, 300000005.0, 300000006.0, 300000009.0],
+        (_, 5) => vec![16777216.0, 16777217.0, 16777218.0, 16777219.0, 16777220.0],
+        (_, 6) => vec![-300000002.0, -300000001.0, 7.0, 300000001.0, 300000002.0],
         (2, 1) => vec![-3.0, 7.0],
         (2, 2) => vec![2.0, 3.0],
         (2, 3) => vec![-1.0, 1.0],
@@ -178,6 +190,37 @@ fn cfg_set(v: V, dk: usize, part: usize) -> Vec<Cfg> {
                 for e in 0..d[3] {
                     if part == 1 || (a + b + c + e) % 3 == 0 {
                         out.push([a, b, c, e]);
+                    }
+                }
+            }
+        }
+    }
+    out
+}
+
+/// First index of the round-7 label maps (large adjacent integers) and their number.
+const LM_NEW: usize = 4;
+const LM_NEW_N: usize = 3;
+
+/// Configuration sets of the round-7 jobs: the label-map dimension ranges over the three NEW tables
+/// (indices 4, 5, 6) only; the other dimensions as in `cfg_set`. `part` = 1: full cross product;
+/// 3: index sum ≡ 0 (mod 3); 0: a diagonal on which every new label map occurs (3 tuples; data kinds
+/// 2 and 3: 4 tuples, so that every threshold occurs as well).
+fn cfg_set_l(v: V, dk: usize, part: usize) -> Vec<Cfg> {
+    let d = cfg_dims(v, dk);
+    let mut out = Vec::new();
+    if part == 0 {
+        for i in 0..(if dk >= 2 { 4 } else { 3 }) {
+            out.push([LM_NEW + i % LM_NEW_N, i % d[1], (i + 1) % d[2], (i + 2) % d[3]]);
+        }
+        return out;
+    }
+    for a in 0..LM_NEW_N {
+        for b in 0..d[1] {
+            for c in 0..d[2] {
+                for e in 0..d[3] {
+                    if part == 1 || (a + b + c + e) % 3 == 0 {
+                        out.push([LM_NEW + a, b, c, e]);
                     }
                 }
             }
@@ -623,6 +666,9 @@ fn run_family(job: &Job) {
         queries: Rc::new(queries),
     };
     count_extension(v, dk);
+    if v != V::C && cfg[0] >= LM_NEW {
+        mc::count("labels_adjacent_beyond_f32_family_members");
+    }
     mc::count("family_members");
     execute(&inst, false);
 }
@@ -662,6 +708,62 @@ fn run_goff(job: &Job) {
     let inst = Inst { v: V::G, x, y, alpha: 1.0, priors: None, bin: None, queries };
     mc::count("offset_instances");
     execute(&inst, true);
+}
+
+// ------------------------------------------------------------------------------------------------
+// job kind "gtiny" (round 7): Gaussian features with a large offset and a tiny spread, FULL oracle
+
+/// Offsets of the tiny-spread family. At 5000 every class has sd/|mean| between 8e-6 and 8e-5 (so
+/// var < mean^2 * sqrt(eps) throughout), at 2000 both sides of that threshold occur, 1e8 lies in the
+/// region of the known one-pass-variance finding (|mean|/sd >= 1e7).
+const TINY_OFF: [f64; 4] = [5000.0, -5000.0, 2000.0, 1e8];
+/// Fractional parts added to the offset (prefix of size `asz`): per-class data such as 5000.1 .. 5000.9.
+const TINY_FRAC: [f64; 5] = [0.1, 0.2, 0.5, 0.9, 0.6];
+/// Alphabet of the optional second, ordinary feature (p = 2): its variance is nowhere near mean^2 * sqrt(eps).
+const TINY_COL2: [f64; 2] = [-1.0, 2.0];
+
+fn run_tiny(job: &Job) {
+    let (n, p, k, asz) = (job.u("n"), job.u("p"), job.u("k"), job.u("asz"));
+    let off = TINY_OFF[job.u("off")];
+    let labs = labellings(V::G, n, k);
+    let (lo, hi) = (job.u("lab_lo"), job.u("lab_hi"));
+    let lab = &labs[lo + mc::choose(hi - lo)];
+    let alph: Vec<Vec<f64>> = (0..p).map(|j| if j == 0 { TINY_FRAC[..asz].iter().map(|f| off + f).collect() } else { TINY_COL2.to_vec() }).collect();
+    let mut x = vec![vec![0.0; p]; n];
+    for j in 0..p {
+        for c in 0..k {
+            let rows: Vec<usize> = (0..n).filter(|i| lab[*i] as usize == c).collect();
+            for &i in &rows {
+                x[i][j] = mc::pick(&alph[j]);
+            }
+            if rows.iter().all(|&i| x[i][j] == x[rows[0]][j]) {
+                mc::count("gaussian_zero_variance_subtrees_excluded");
+                return;
+            }
+        }
+    }
+    let lm = label_map(k, 0);
+    let y: Vec<f64> = lab.iter().map(|c| lm[*c as usize]).collect();
+    let key = (200 + job.u("off") as u8, 0usize, 0u64, asz, p);
+    let queries = match QUERIES.with(|c| c.borrow().get(&key).cloned()) {
+        Some(q) => q,
+        None => {
+            let q = Rc::new(lattice(&alph));
+            QUERIES.with(|c| c.borrow_mut().insert(key, q.clone()));
+            q
+        }
+    };
+    let inst = Inst { v: V::G, x, y, alpha: 1.0, priors: None, bin: None, queries };
+    mc::count("tiny_spread_instances");
+    let Some((obs, pred)) = run_library(&inst) else {
+        mc::describe(|| json!({"instance": inst.to_json(), "fit": "failed"}));
+        return;
+    };
+    mc::count("fit_gaussian");
+    reference::check_spread(&inst, &obs, &pred);
+    mc::nontrivial();
+    mc::outcome(obs.digest(&pred));
+    mc::describe(|| json!({"instance": inst.to_json(), "observed": obs.to_json(), "predicted": pred.to_json()}));
 }
 
 // ------------------------------------------------------------------------------------------------
@@ -725,13 +827,23 @@ struct Planner {
 impl Planner {
     /// Lattice space (variant, data kind, n rows, p features, k classes, alphabet size, config set).
     fn lat(&mut self, v: V, dk: usize, n: usize, p: usize, k: usize, asz: usize, part: usize) {
+        self.lat_impl(v, dk, n, p, k, asz, part, false)
+    }
+
+    /// The same lattice space under the round-7 label maps (job names carry the tag `L`).
+    fn lat_l(&mut self, v: V, dk: usize, n: usize, p: usize, k: usize, asz: usize, part: usize) {
+        self.lat_impl(v, dk, n, p, k, asz, part, true)
+    }
+
+    #[allow(clippy::too_many_arguments)]
+    fn lat_impl(&mut self, v: V, dk: usize, n: usize, p: usize, k: usize, asz: usize, part: usize, new_lm: bool) {
         let nlab = labellings(v, n, k).len();
         if nlab == 0 {
             return;
         }
         let a = alphabet(v, dk, self.seed, asz).len() as u64;
         let per_lab = a.pow((n * p) as u32);
-        let cfgs = cfg_set(v, dk, part);
+        let cfgs = if new_lm { cfg_set_l(v, dk, part) } else { cfg_set(v, dk, part) };
         let total = per_lab * nlab as u64 * cfgs.len() as u64;
         self.leaves += total;
         let base = |cf: &[Cfg], lo: usize, hi: usize| -> Value {
@@ -742,7 +854,7 @@ impl Planner {
             }
             j
         };
-        let tag = format!("{}{}-n{}-p{}-k{}-a{}", v.code(), DK_TAG[dk], n, p, k, asz);
+        let tag = format!("{}{}{}-n{}-p{}-k{}-a{}", v.code(), DK_TAG[dk], if new_lm { "L" } else { "" }, n, p, k, asz);
         let order = ((n * p) as u64) << 40 | (k as u64) << 32;
         if total <= self.chunk {
             self.jobs.push((order | total.min(u32::MAX as u64), Job::new(format!("lat-{}-cfg*{}", tag, cfgs.len()), base(&cfgs, 0, nlab))));
@@ -839,6 +951,40 @@ impl Harness for C11 {
         for &(n, p, cl, a) in c {
             pl.lat(V::C, 0, n, p, cl, a, 1);
         }
+        // ---- round-7 extension (1): the label maps of LARGE ADJACENT integers (indices 4..6) on the Gaussian,
+        //      multinomial and Bernoulli lattices (not categorical: its classes are 0..max label).
+        //      (variant, data kind, n, p, alphabet size, configuration set over the 3 new label maps), k = 2..min(n,3)
+        //      (Gaussian: the k for which every class can have 2 rows)
+        let gl: &[(usize, usize, usize, usize, usize)] = if t {
+            &[(4, 1, 2, 4, 1), (4, 2, 2, 4, 3), (5, 1, 2, 4, 1), (6, 1, 2, 4, 3), (6, 1, 3, 4, 3), (4, 3, 2, 2, 1), (5, 2, 2, 3, 0), (6, 2, 3, 2, 1), (7, 1, 3, 3, 0)]
+        } else {
+            &[(4, 1, 2, 4, 1), (5, 1, 2, 4, 1), (6, 1, 3, 3, 0), (6, 1, 3, 2, 1), (4, 2, 2, 2, 1)]
+        };
+        for &(n, p, k, a, part) in gl {
+            pl.lat_l(V::G, 0, n, p, k, a, part);
+        }
+        let ml: &[(usize, usize, usize, usize)] = if t {
+            &[(2, 1, 4, 1), (2, 2, 4, 1), (2, 3, 4, 1), (3, 1, 4, 1), (3, 2, 4, 1), (3, 3, 3, 0), (4, 1, 4, 1), (4, 2, 3, 0), (5, 1, 4, 3)]
+        } else {
+            &[(2, 1, 4, 1), (2, 2, 4, 1), (2, 3, 4, 3), (3, 1, 4, 1), (3, 2, 4, 0), (4, 1, 4, 3)]
+        };
+        for &(n, p, a, part) in ml {
+            for k in 2..=n.min(3) {
+                pl.lat_l(V::M, 0, n, p, k, a, part);
+            }
+        }
+        let bl: &[(usize, usize, usize, usize, usize)] = if t {
+            &[(0, 2, 1, 2, 1), (0, 2, 2, 2, 1), (0, 2, 3, 2, 1), (0, 3, 1, 2, 1), (0, 3, 2, 2, 1), (0, 3, 3, 2, 1), (0, 4, 1, 2, 1), (0, 4, 2, 2, 1), (0, 4, 3, 2, 0), (0, 5, 1, 2, 1), (0, 5, 2, 2, 3),
+              (1, 2, 1, 4, 1), (1, 2, 2, 4, 1), (1, 3, 1, 4, 1), (1, 3, 2, 3, 3), (1, 4, 1, 4, 3), (2, 2, 2, 2, 1), (2, 3, 2, 2, 3), (3, 2, 2, 5, 3), (3, 3, 1, 5, 1)]
+        } else {
+            &[(0, 2, 1, 2, 1), (0, 2, 2, 2, 1), (0, 2, 3, 2, 1), (0, 3, 1, 2, 1), (0, 3, 2, 2, 1), (0, 3, 3, 2, 3), (0, 4, 1, 2, 1), (0, 4, 2, 2, 0),
+              (1, 2, 1, 4, 1), (1, 3, 1, 4, 3), (2, 2, 2, 2, 3), (3, 2, 1, 5, 1)]
+        };
+        for &(dk, n, p, a, part) in bl {
+            for k in 2..=n.min(3) {
+                pl.lat_l(V::B, dk, n, p, k, a, part);
+            }
+        }
         let lattice_leaves = pl.leaves;
         let mut jobs = pl.jobs;
         jobs.sort_by_key(|j| j.0);
@@ -856,6 +1002,35 @@ impl Harness for C11 {
                     params["dk"] = json!(dk);
                 }
                 jobs.push(Job::new(format!("fam-{}{}-n{}", v.code(), DK_TAG[dk], n), params));
+            }
+        }
+        // ---- round-7 extension (1): the structured families under the new label maps (k = 4, 5: the tables' prefixes)
+        for (v, dk) in [(V::G, 0usize), (V::M, 0), (V::B, 0), (V::B, 1)] {
+            for n in FAM_N {
+                let cfgs = cfg_set_l(v, dk, if t || v == V::G { 1 } else { 3 });
+                let params = json!({"kind": "fam", "v": v.code(), "real": dk == 1, "n": n, "seed": seed, "cfgs": cfgs.iter().map(|c| c.to_vec()).collect::<Vec<_>>()});
+                jobs.push(Job::new(format!("fam-{}{}L-n{}", v.code(), DK_TAG[dk], n), params));
+            }
+        }
+        // ---- round-7 extension (2): Gaussian features with a large offset and a tiny spread, full oracle
+        //      (n, p, k, offset index, alphabet size of the tiny-spread column)
+        let tiny: &[(usize, usize, usize, usize, usize)] = if t {
+            &[(4, 1, 2, 0, 5), (5, 1, 2, 0, 5), (5, 1, 2, 1, 5), (5, 1, 2, 2, 5), (5, 1, 2, 3, 4), (6, 1, 2, 0, 5), (6, 1, 2, 2, 4), (6, 1, 3, 0, 4), (6, 1, 3, 1, 4), (7, 1, 2, 0, 4), (7, 1, 3, 0, 4), (8, 1, 2, 0, 3), (8, 1, 3, 0, 3),
+              (5, 2, 2, 0, 3), (5, 2, 2, 2, 2), (6, 2, 2, 0, 2), (6, 2, 3, 0, 2)]
+        } else {
+            &[(4, 1, 2, 0, 4), (5, 1, 2, 0, 4), (5, 1, 2, 1, 4), (5, 1, 2, 2, 4), (5, 1, 2, 3, 3), (6, 1, 2, 0, 4), (6, 1, 3, 0, 3), (7, 1, 3, 0, 2), (5, 2, 2, 0, 2)]
+        };
+        let tiny_chunk: u64 = if t { 3_000_000 } else { 400_000 };
+        for &(n, p, k, off, a) in tiny {
+            let nlab = labellings(V::G, n, k).len();
+            let per_lab = (a as u64).pow(n as u32) * if p == 2 { (TINY_COL2.len() as u64).pow(n as u32) } else { 1 };
+            let step = ((tiny_chunk / per_lab).max(1) as usize).min(nlab);
+            let mut lo = 0;
+            while lo < nlab {
+                let hi = (lo + step).min(nlab);
+                let name = format!("gtiny-n{}-p{}-k{}-off{:e}-a{}-lab{}..{}", n, p, k, TINY_OFF[off], a, lo, hi);
+                jobs.push(Job::new(name, json!({"kind": "gtiny", "n": n, "p": p, "k": k, "off": off, "asz": a, "lab_lo": lo, "lab_hi": hi})));
+                lo = hi;
             }
         }
         // ---- Gaussian lattice at large offsets
@@ -906,6 +1081,15 @@ impl Harness for C11 {
                 ("bernoulli_exact_one_entry_binarised_to_zero", 200_000),
                 ("bernoulli_exact_zero_entry_binarised_to_one", 200_000),
                 ("bernoulli_mixed_row_keeps_and_changes_binary_looking_entries", 10_000),
+                // round-7 extension: large adjacent labels, large-offset / tiny-spread Gaussian data
+                ("labels_adjacent_beyond_f32_instances", 300_000),
+                ("labels_adjacent_beyond_f32_k_ge_3", 50_000),
+                ("labels_adjacent_beyond_f32_family_members", 10_000),
+                ("tiny_spread_instances", 100_000),
+                ("tiny_spread_class_sizes_differ", 50_000),
+                ("tiny_spread_variance_below_mean2_sqrt_eps", 100_000),
+                ("tiny_spread_variance_on_both_sides_of_mean2_sqrt_eps", 1_000),
+                ("tiny_spread_known_cancellation_region", 1_000),
                 ("priors_observed_via_serde", 100_000),
                 ("queries_judged", 1_000_000),
                 ("queries_judged_outside_training_set", 100_000),
@@ -923,6 +1107,8 @@ impl Harness for C11 {
                 "alphabets": {"gaussian": G_BASE, "gaussian_tight_clusters": G_TIGHT, "multinomial": M_ALPH[(seed % 8) as usize], "bernoulli": "{0,1} (binarize none/0/0.5) and reals {-0.5,0.2,0.7,1.5} with thresholds {0,0.5,0.7,-0.7}",
                               "bernoulli_extension_round_2": format!("{{0,1}} data with thresholds {:?} (>=1: every entry -> 0, negative: every entry -> 1) and the mixed alphabet {:?} (prefixes of size 3/4/5) with thresholds {:?}; full lattice for n<=4, p<=2 (quick: |A|=5 up to n*p=6 resp. n=4 p=1, |A|=3 at n=4 p=2), k=2..min(n,3), x label maps x alpha x priors (full / third / four-element diagonal), plus the structured families; not seed-dependent", B_EXT_THR, B_MIX, B_MIX_THR), "categorical": C_ALPH, "alpha": ALPHAS[(seed % 8) as usize]},
                 "label_maps": "0..k-1, {-3,7,10}, {2,3}/{1,2,4}, {-1,1}/{-2^40,5,2^52}",
+                "label_maps_round_7": "large adjacent integers (distinct as f64/i64, equal as f32): prefixes of length k of {300000001,300000002,300000005,300000006,300000009}, {2^24,2^24+1,..,2^24+4}, {-300000002,-300000001,7,300000001,300000002}; jobs lat-GL/ML/BL/BrL/BxL/BmL (the lattice spaces listed in NOTES.md, each under 3 new label maps x the other configuration dimensions: full / third / diagonal) and fam-GL/ML/BL/BrL (every family member, k = 2..5); categorical not included (its classes are 0..max label)",
+                "tiny_spread_round_7": format!("job kind gtiny: Gaussian lattice whose first feature is offset + {:?} (prefix of size a) for offsets {:?}, optional second feature over {:?}; every labelling with every class >= 2 rows (class sizes 2..6, different sizes for odd n and for the 2+4 / 2+2+3 splits), every non-zero-variance training set; n=4..7 (thorough ..8), k=2,3; full oracle, variance tolerance 1e-3 relative to the two-pass (spread-based) reference variance; members with |mean|/sd >= 1e7 that fail are reported under the known cancellation key", TINY_FRAC, TINY_OFF, TINY_COL2),
                 "user_priors": "none + two dyadic prior vectors per k; decimal priors: every ordered vector of positive tenths summing to one for k = 2..5 (255 vectors) x {Gaussian, multinomial, Bernoulli} x 2 label maps on a fixed 2k-row training set",
                 "queries": "the full alphabet^p lattice (categorical: every in-range code); judged when every value occurred in that column of the training set",
                 "families": format!("n in {:?} x p in {:?} x k in {:?} x 3 class layouts x 2 generators x configurations", FAM_N, FAM_P, FAM_K),
@@ -939,6 +1125,7 @@ impl Harness for C11 {
             "lat" => run_lattice(job),
             "fam" => run_family(job),
             "goff" => run_goff(job),
+            "gtiny" => run_tiny(job),
             "pri" => run_pri(job),
             "builders" => mc_sc::builders::run("C11"),
             other => panic!("unknown job kind {}", other),
